@@ -162,7 +162,7 @@ impl<Key, Value> CommandExecutor<Key, Value>
                         pair.acknowledgement.done(CommandStatus::Accepted);
                         for command_acknowledgement_pair in receiver.iter() {
                             #[cfg(feature = "verif_hooks")]
-                            verif.event(crate::cache::verif::Event::Drained { ack: Arc::as_ptr(&command_acknowledgement_pair.acknowledgement) as usize, stamp: verif.next_stamp() });
+                            verif.event(crate::cache::verif::Event::Drained { ack: command_acknowledgement_pair.acknowledgement.verif_id() as usize, stamp: verif.next_stamp() });
                             command_acknowledgement_pair.acknowledgement.done(CommandStatus::ShuttingDown);
                         }
                         drop(receiver);
@@ -171,7 +171,7 @@ impl<Key, Value> CommandExecutor<Key, Value>
                 };
                 #[cfg(feature = "verif_hooks")]
                 verif.event(crate::cache::verif::Event::Executed {
-                    ack: Arc::as_ptr(&pair.acknowledgement) as usize,
+                    ack: pair.acknowledgement.verif_id() as usize,
                     kind: verif_kind,
                     status,
                     begin: verif_begin,
@@ -205,7 +205,7 @@ impl<Key, Value> CommandExecutor<Key, Value>
         });
         #[cfg(feature = "verif_hooks")]
         if let Some(verif) = verif.as_ref() {
-            verif.event(crate::cache::verif::Event::Sent { ack: Arc::as_ptr(&acknowledgement) as usize, kind: verif_kind, before: verif_before.unwrap_or(0), after: verif.next_stamp() });
+            verif.event(crate::cache::verif::Event::Sent { ack: acknowledgement.verif_id() as usize, kind: verif_kind, before: verif_before.unwrap_or(0), after: verif.next_stamp() });
             verif.point(crate::cache::verif::Site::SendAfter);
         }
 
